@@ -287,6 +287,18 @@ def generic_foreign_families():
                 hold = ["dc", "FHold", [["b", box, ["req"], []]], [["lazy", True]] if lazy else []]
                 out.append((hold, [["obj", "FHold", [["obj", "Box", vals]]]]))
             out.append((box, [["obj", "Box", vals]]))
+    # PEP 585 spelling (list[X] / dict[str, X] / tuple[X, int]) of containers whose element class lives in ANOTHER module and is
+    # mentioned nowhere else, on fields whose (de)serialization is overridden or passed through: the generated code still names
+    # the annotation (error reporting paths), so the element's module must be reachable from the generated function
+    item = ["dc", "Item", [["sku", ["str"], ["req"], []], ["n", ["int"], ["val", ["int", 1]], []]], [["mixin", "plain"], ["module", "shapes"]]]
+    iv = ["obj", "Item", [["str", "k"], ["int", 2]]]
+    for shape, val in ((["list", item], ["list", [iv]]), (["dict", ["str"], item], ["dict", [[["str", "a"], iv]]]), (["tuple", [item, ["int"]]], ["tuple", [iv, ["int", 3]]])):
+        for fopts in ([["strategy", ["pass_through"]]], [["fdeser", ["mark", "pd", "deser"]]], [["fser", ["mark", "ps", "ser"]]], []):
+            for lazy in (False, True):
+                for spell in (True, False):
+                    hold = ["dc", "PHold", [["items", shape, ["req"], fopts], ["k", ["int"], ["val", ["int", 0]], []]],
+                            ([["lazy", True]] if lazy else []) + ([["pep585", True]] if spell else [])]
+                    out.append((hold, []))
     return out
 
 
